@@ -1204,11 +1204,23 @@ class Structure(UniqueMixin, metaclass=StructMeta):
 
     def __getstate__(self):
         fields_by_name = _get_all_fields_by_name(self.__class__)
-        return {
+        state = {
             name: field.__serialize__(getattr(self, name, None))
             for (name, field) in fields_by_name.items()
             if name in self.__dict__
         }
+        # additional properties are part of the instance as well
+        for name, value in self.__dict__.items():
+            if name not in fields_by_name and name not in _internal_props:
+                state[name] = value
+        return state
+
+    def __setstate__(self, state):
+        # restore the bookkeeping entries that __init__ creates: without "_instantiated" an unpickled
+        # ImmutableStructure accepts assignment and __validate__ is skipped on later assignments
+        self.__dict__.update(state)
+        self.__dict__.setdefault("_none_fields", set())
+        self.__dict__["_instantiated"] = True
 
     def __str__(self):
         def list_to_str(values):
